@@ -9,8 +9,8 @@ PID = "C13"
 ANCHORS = ["pyoma2.functions.fdd:SD_est"]
 REQUIRED_MONITORS = ["grid+shape", "welch-equivalence(per)", "hermitian-psd(per)", "bilinear+g2(per)", "bilinear+g2(cor)", "parseval(per)",
                      "gain-delay(per)", "gain-delay(cor)", "sinusoid-ratio(per)"]
-ALL_STATES = ["pov=0", "pov=0.25", "pov=0.5", "pov=0.75", "ref=all", "ref=subset", "nxseg not a power of two", "negative gain", "1 channel"]
-REQUIRED_STATES = ["pov=0", "pov=0.25", "pov=0.75", "ref=subset", "negative gain"]
+ALL_STATES = ["pov=0", "pov=0.25", "pov=0.5", "pov=0.75", "ref=all", "ref=subset", "nxseg not a power of two", "nxseg with a prime factor > 5", "negative gain", "1 channel"]
+REQUIRED_STATES = ["pov=0", "pov=0.25", "pov=0.75", "ref=subset", "negative gain", "nxseg with a prime factor > 5"]
 RULE = ("random records (1..8 channels, 1..4 references, 2..10 segments), nxseg in {16..4096} incl. non powers of two, integer nxseg*pov, fs "
         "log-uniform; 'per' compared entry by entry with an independently written Welch estimate (lines >= 2); bilinearity/g^2, Hermitian PSD, "
         "Parseval; multi-channel gain-and-delay records (each entry (i,j) must show gain g_j/g_i and phase -2 pi f (d_j-d_i)/fs); sinusoids at "
@@ -46,7 +46,7 @@ def welch_ref(x, y, fs, nx, nov):
 
 
 def pick_nx_pov(rng, tier):
-    nxs = [16, 32, 48, 64, 100, 128, 200, 256, 512, 1024] + ([2048, 4096] if tier == "thorough" else [])
+    nxs = [16, 28, 32, 48, 56, 64, 88, 100, 112, 128, 154, 200, 256, 512, 1022, 1024] + ([2048, 4094, 4096] if tier == "thorough" else [])
     nx = int(rng.choice(nxs))
     povs = [p for p in (0.0, 0.25, 0.5, 0.75) if float(nx * p).is_integer()]
     return nx, float(rng.choice(povs))
@@ -128,6 +128,12 @@ def run_welch(ctx, rng):
     ctx.state("ref=all" if allref else "ref=subset")
     if nx & (nx - 1):
         ctx.state("nxseg not a power of two")
+    r_ = nx
+    for q_ in (2, 3, 5):
+        while r_ % q_ == 0:
+            r_ //= q_
+    if r_ > 1:
+        ctx.state("nxseg with a prime factor > 5")
     if nch == 1:
         ctx.state("1 channel")
     if nch >= 2:
@@ -216,7 +222,7 @@ def run_delay(ctx, rng):
 def run_sinus(ctx, rng):
     from pyoma2.functions import fdd
 
-    nx = int(rng.choice([64, 128, 256, 512]))
+    nx = int(rng.choice([56, 64, 112, 128, 256, 512]))
     fs = float(10 ** rng.uniform(0, 3))
     k = int(rng.integers(2, nx // 2 - 1))
     nch = int(rng.integers(2, 6))
